@@ -46,6 +46,8 @@ def run(ctx, col, tier):
     col.not_decided += ["equal arc-length spacing / 'length never grows' / linearity of radii as numeric statements",
                         "scipy.signal.convolve behaviour"]
 
+    from ..rules import ignoredparam
+    ignoredparam.run(ctx, col, ('swcgeom.transforms.branch', 'swcgeom.transforms.branch_tree', 'swcgeom.transforms.tree'))
     col.guard(anchored, ctx, col)
     col.guard(shapes, ctx, col)
     col.guard(argdisc, ctx, col)
